@@ -253,13 +253,22 @@ pub fn j_offset(minutes: i128, c: i128, out: &mut Local) {
         let f = Format::from_str("%Y-%m-%dT%H:%M:%S%z").unwrap();
         let a = format!("{}", Formatter::with_timezone(e, off, f));
         let back = Epoch::from_str(&a).map(|x| (x.time_scale, alpha(x.duration))).map_err(|e| e.to_string());
-        (a, back)
+        // "parsing the output of a format ... with that same format returns the epoch", offsets included
+        let same = f.parse(&a).map(|x| (x.time_scale, alpha(x.duration))).map_err(|e| e.to_string());
+        (a, back, same)
     });
     let (y, m, d, h, mi, s, _) = text::fields(c + minutes * 60 * NS_S, TimeScale::UTC);
     let (sg, am) = if minutes < 0 { ('-', -minutes) } else { ('+', minutes) };
     let want = format!("{y:04}-{m:02}-{d:02}T{h:02}:{mi:02}:{s:02}{sg}{:02}:{:02}", am / 60, am % 60);
     match r {
-        Ok((got, back)) => {
+        Ok((got, back, same)) => {
+            let want_back = Ok((TimeScale::UTC, c - c.rem_euclid(NS_S)));
+            if got == want && back == want_back && same != want_back {
+                let local = c + minutes * 60 * NS_S;
+                let cls = if same == Ok((TimeScale::UTC, local - local.rem_euclid(NS_S))) { "offset-ignored:local-time-read-as-utc" } else if same.is_err() { "rejected" } else { "other-epoch" };
+                out.viol("c19.offset", format!("parse-with-the-same-format,{cls}"), args, format!("{want_back:?}"), format!("{same:?} from {got:?}"));
+                return;
+            }
             if got != want {
                 out.viol("c19.offset", format!("text-wrong,{}", if minutes < 0 { "negative" } else { "non-negative" }), args, want, got);
             } else if back != Ok((TimeScale::UTC, c - c.rem_euclid(NS_S))) {
@@ -290,6 +299,7 @@ pub fn j_parse_back(fmt: &str, c: i128, out: &mut Local) {
         Ok::<_, String>((shown, a, b, cc))
     });
     let fam = if fmt.contains("%A") || fmt.contains("%a") { "with-weekday-name" } else if fmt.contains("%B") || fmt.contains("%b") { "with-month-name" } else if fmt.contains("%j") { "ordinal" } else { "numeric" };
+    let structure = structure_class(fmt);
     match r {
         Ok(Ok((shown, a, b, cc))) => {
             if a != Ok((TimeScale::UTC, want)) {
@@ -297,11 +307,16 @@ pub fn j_parse_back(fmt: &str, c: i128, out: &mut Local) {
                 let tai_other_day = (c + 37 * NS_S).div_euclid(NS_DAY) != c.div_euclid(NS_DAY) || (c + 10 * NS_S).div_euclid(NS_DAY) != c.div_euclid(NS_DAY);
                 let _ = (y, m, d);
                 let cls = match &a {
-                    Err(msg) if msg.contains("eekday") && tai_other_day => "weekday-mismatch-near-utc-midnight".to_string(),
+                    Err(msg) if msg.contains("ismatch") && tai_other_day => "weekday-mismatch-near-utc-midnight".to_string(),
                     Err(_) => "own-output-rejected".to_string(),
+                    Ok(_) if structure != "plain" => "other-epoch".to_string(),
                     Ok((_, g)) => format!("other-epoch,diff={}", diffclass(*g, want)),
                 };
-                out.viol("c19.parse_back", format!("{cls},{fam}"), args, format!("UTC {want} from {shown:?}"), format!("{a:?}"));
+                if structure == "plain" {
+                    out.viol("c19.parse_back", format!("{cls},{fam}"), args, format!("UTC {want} from {shown:?}"), format!("{a:?}"));
+                } else {
+                    out.viol("c19.parse_back", format!("{cls},{structure}"), args, format!("UTC {want} from {shown:?}"), format!("{a:?}"));
+                }
             } else if b != a || cc != a {
                 out.viol("c19.parse_back", "entry-points-disagree".into(), args, format!("{a:?}"), format!("{b:?} / {cc:?}"));
             } else {
@@ -316,20 +331,148 @@ pub fn j_parse_back(fmt: &str, c: i128, out: &mut Local) {
     }
 }
 
+/// (token, separators after it) of a format string made of %X tokens and separator characters
+pub fn tokenize(fmt: &str) -> Vec<(char, String)> {
+    let mut v: Vec<(char, String)> = vec![];
+    let mut it = fmt.chars().peekable();
+    while let Some(ch) = it.next() {
+        if ch == '%' {
+            if let Some(t) = it.next() {
+                v.push((t, String::new()));
+            }
+        } else if let Some(last) = v.last_mut() {
+            last.1.push(ch);
+        }
+    }
+    v
+}
+
+/// structural class of a format for the parse-back clause (decides the signature of a failure, so that each known
+/// weakness of Format::parse is recorded on its own and anything else stays a violation)
+pub fn structure_class(fmt: &str) -> &'static str {
+    let t = tokenize(fmt);
+    let numeric = |c: char| "YmdHMSfjyJw".contains(c);
+    let name = |c: char| "AaBb".contains(c);
+    let n = t.len();
+    for i in 0..n.saturating_sub(1) {
+        if numeric(t[i].0) && t[i].1.is_empty() && numeric(t[i + 1].0) {
+            return "adjacent-numeric-tokens";
+        }
+    }
+    if let Some(i) = t.iter().position(|x| x.0 == 'z') {
+        if i + 1 < n {
+            return "%z-not-last";
+        }
+    }
+    if let Some(i) = t.iter().position(|x| x.0 == 'T') {
+        if i + 1 < n {
+            return "%T-not-last";
+        }
+    }
+    for i in 1..n {
+        if name(t[i].0) {
+            let prev: Vec<char> = t[i - 1].1.chars().collect();
+            if prev.len() == 2 && prev[1] != ' ' && t[i].1.chars().next() != Some(prev[1]) {
+                return "name-token-after-two-separators";
+            }
+        }
+    }
+    if n > 0 && (t[n - 1].0 == 'B' || t[n - 1].0 == 'b') {
+        return "month-name-last";
+    }
+    "plain"
+}
+
+/// formats whose STRUCTURE varies (the families above vary order and separators of the seven numeric tokens): an extra
+/// token of every kind at every position, a month name in every position, two-character separators before name tokens,
+/// and missing separators
+pub fn parse_back_structures() -> Vec<String> {
+    let mut v: Vec<String> = vec![];
+    let base = ["%Y", "%m", "%d", "%H", "%M", "%S", "%f"];
+    let bsep = ["-", "-", " ", ":", ":", "."];
+    let join = |toks: &[String], seps: &[String]| -> String {
+        let mut s = String::new();
+        for (i, t) in toks.iter().enumerate() {
+            s.push_str(t);
+            if i + 1 < toks.len() {
+                s.push_str(&seps[i]);
+            }
+        }
+        s
+    };
+    // one extra token at each of the 8 positions
+    for extra in ["%A", "%a", "%B", "%b", "%j", "%T", "%z"] {
+        for pos in 0..=7usize {
+            let mut toks: Vec<String> = base.iter().map(|x| x.to_string()).collect();
+            let mut seps: Vec<String> = bsep.iter().map(|x| x.to_string()).collect();
+            toks.insert(pos, extra.to_string());
+            seps.insert(pos.min(6), " ".to_string());
+            v.push(join(&toks, &seps));
+        }
+    }
+    // month name instead of the month number, in every position of the date-first and time-first orders
+    for name in ["%B", "%b"] {
+        for pos in 0..7usize {
+            let mut rest: Vec<String> = ["%Y", "%d", "%H", "%M", "%S", "%f"].iter().map(|x| x.to_string()).collect();
+            rest.insert(pos.min(6), name.to_string());
+            let seps: Vec<String> = (0..6).map(|_| " ".to_string()).collect();
+            v.push(join(&rest, &seps));
+        }
+    }
+    // every two-character separator before a name token
+    let sc = ['-', ' ', ':', '.', ',', '/'];
+    for a in sc {
+        for b in sc {
+            v.push(format!("%d{a}{b}%B %Y %H:%M:%S.%f"));
+            v.push(format!("%Y-%m-%d{a}{b}%A %H:%M:%S.%f"));
+            v.push(format!("%Y-%m-%d{a}{b}%H:%M:%S.%f"));
+        }
+    }
+    // missing separators: the canonical format with each one removed, and the ISO 8601 basic forms
+    for k in 0..6usize {
+        let toks: Vec<String> = base.iter().map(|x| x.to_string()).collect();
+        let mut seps: Vec<String> = bsep.iter().map(|x| x.to_string()).collect();
+        seps[k] = String::new();
+        v.push(join(&toks, &seps));
+    }
+    v.push("%Y%m%dT%H%M%S.%f".into());
+    v.push("%Y%m%d%H%M%S%f".into());
+    v.sort();
+    v.dedup();
+    v
+}
+
 /// 48-epoch sub-lattice: all months, all weekdays, day-of-year 1/59/60/365/366, ns patterns, several scales and years
 pub fn epochs() -> Vec<(TimeScale, i128)> {
+    epochs_in(None)
+}
+
+/// the same (date, time of day) grid; with Some(ts) every cell is given in that scale
+pub fn epochs_in(fixed: Option<TimeScale>) -> Vec<(TimeScale, i128)> {
     let mut v = vec![];
     let dates: Vec<(i64, i64, i64)> = vec![
         (2000, 1, 1), (2000, 2, 28), (2000, 2, 29), (2000, 3, 1), (2000, 12, 31), (1999, 12, 31), (2001, 4, 30), (2002, 5, 1), (2003, 6, 15), (2004, 7, 4), (2005, 8, 31), (2006, 9, 9), (2007, 10, 10),
         (2008, 11, 11), (2009, 12, 25), (2017, 1, 7), (2016, 12, 31), (1, 1, 1), (9999, 12, 31), (1899, 12, 31), (1900, 1, 1), (2023, 2, 28),
     ];
     let tods = [0i128, 14 * 3600 * NS_S + 57 * 60 * NS_S + 29 * NS_S + 37, 86_399 * NS_S + 999_999_999, 86_390 * NS_S];
-    let scs = [TimeScale::UTC, TimeScale::TAI, TimeScale::GPST, TimeScale::TDB, TimeScale::TT];
+    // all nine scales, cycled over the (date, time of day) grid so that every scale meets every time of day
+    let scs = [TimeScale::UTC, TimeScale::TAI, TimeScale::GPST, TimeScale::TDB, TimeScale::TT, TimeScale::ET, TimeScale::GST, TimeScale::BDT, TimeScale::QZSST];
     for (i, (y, m, d)) in dates.iter().enumerate() {
         for (j, tod) in tods.iter().enumerate() {
-            let ts = scs[(i + j) % 5];
+            let ts = fixed.unwrap_or(scs[(i + j) % 9]);
             if (i + 2 * j) % 2 == 0 || j == 3 {
                 v.push((ts, super::c08::expected_count(days1900(*y, *m, *d), *tod, ts)));
+            }
+        }
+    }
+    // every scale within its own offset to UTC/TAI of a day, month and year boundary: there the civil date of the
+    // epoch differs between its own scale and UTC/TAI, so a token computed in the wrong scale shows
+    if fixed.is_none() {
+        for ts in scs {
+            for (y, m, d) in [(2022i64, 3i64, 1i64), (2021, 1, 1), (2016, 12, 31), (2000, 2, 29)] {
+                for tod in [10 * NS_S, 86_390 * NS_S + 5] {
+                    v.push((ts, super::c08::expected_count(days1900(y, m, d), tod, ts)));
+                }
             }
         }
     }
@@ -405,7 +548,7 @@ pub fn run(rep: &mut Report) {
     let eps = epochs();
     let ne = eps.len() as u64;
     rep.bound("epochs", ne);
-    rep.rule = "formats: all token sequences of length 1 and 2 over the 17 tokens with all 57 separator strings of 0-2 characters over {'-',' ',':','T',',','/','.'} (16 490 formats), length 3 with separators over {'-',' ',''} (thorough: all 4 913 x 9; quick: every 5th), rotations of two 16-token formats; x a 48-epoch sub-lattice (all months, all weekdays, day of year 1/59/60/365/366, first/last nanosecond, 5 scales, years 0001/1899/1900/9999); the nine predefined constants x epochs; %z with all 2 879 offsets; parse-back of ~1 000 (quick) / ~52 000 (thorough) full date-time formats on UTC epochs. Oracle: concatenation of per-token reference pieces and the format's own separators.".into();
+    rep.rule = "formats: all token sequences of length 1 and 2 over the 17 tokens with all 57 separator strings of 0-2 characters over {'-',' ',':','T',',','/','.'} (16 490 formats), length 3 with separators over {'-',' ',''} (thorough: all 4 913 x 9; quick: every 5th), rotations of two 16-token formats; x a 120-epoch sub-lattice (every scale within 10 s of a day/month/year boundary; all months, all weekdays, day of year 1/59/60/365/366, first/last nanosecond, 9 scales, years 0001/1899/1900/9999); the nine predefined constants x epochs; %z with all 2 879 offsets; parse-back of ~1 000 (quick) / ~52 000 (thorough) full date-time formats on UTC epochs. Oracle: concatenation of per-token reference pieces and the format's own separators.".into();
     rep.assumptions = vec![
         "%y is not pinned by the statement (its own text is a don't-care); %J and %w are compared with the day_of_year() accessor and the C89 number of Epoch::weekday()".into(),
         "ISO 8601 formatter == Display is judged for non-zero nanoseconds only: for whole seconds the statement's per-token rule (nine-digit %f) and its display rule (fraction only when non-zero) contradict each other".into(),
@@ -483,9 +626,12 @@ pub fn run(rep: &mut Report) {
     });
     let pf = parse_back_formats(q);
     rep.bound("parse_back_formats", pf.len() as u64);
-    let utc: Vec<i128> = eps.iter().filter(|(ts, _)| *ts == TimeScale::UTC).map(|(_, c)| *c).chain([super::c08::expected_count(days1900(2017, 1, 7), 86_390 * NS_S, TimeScale::UTC), super::c08::expected_count(days1900(2024, 2, 29), 3661 * NS_S + 5, TimeScale::UTC)]).collect();
+    let utc: Vec<i128> = epochs_in(Some(TimeScale::UTC)).iter().step_by(3).map(|(_, c)| *c).chain([super::c08::expected_count(days1900(2017, 1, 7), 86_390 * NS_S, TimeScale::UTC), super::c08::expected_count(days1900(2024, 2, 29), 3661 * NS_S + 5, TimeScale::UTC)]).collect();
     let nu = utc.len() as u64;
     sweep(rep, "c19.parse_back", pf.len() as u64 * nu, |i, out| j_parse_back(&pf[(i / nu) as usize], utc[(i % nu) as usize], out));
+    let ps = parse_back_structures();
+    rep.bound("parse_back_structures", ps.len() as u64);
+    sweep(rep, "c19.parse_back[structures]", ps.len() as u64 * nu, |i, out| j_parse_back(&ps[(i / nu) as usize], utc[(i % nu) as usize], out));
 }
 
 pub fn replay(check: &str, a: &[String], out: &mut Local) -> bool {
